@@ -293,7 +293,8 @@ CHECKS = {
     category="model_checking",
     text="Same spec as C05 (specs/ReaderPipeline.tla) with the fault and stop dimensions: the j-th decompressor read throws, "
          "decompressor close throws, the parser throws before/after the header at chunk m, the pool task of block m throws, "
-         "file truncated/corrupted at blob m (real PBF), consumer scripts over header/read/readall/close + destructor. TLC "
+         "file truncated/corrupted at blob m (real PBF), input incomplete for its format (fault 'end': mock parsers, real XML "
+         "document cut short and fed through the input queue), consumer scripts over header/read/readall/close + destructor. TLC "
          "checks for every configuration and every interleaving: log == Expected(cfg) (first error reported exactly once from "
          "header()/read(), nothing delivered after it, reads after eof/close/error fail), no deadlock, termination under weak "
          "fairness (FairSpec), at most the in-flight read after close() (read thread and fd-reading parser), header promise set "
